@@ -32,6 +32,8 @@ func checkC06(c *an.Ctx) {
 	executeTable(c, r, "C06.3", false)
 	checkRunTable(c, "C06.4", map[string]bool{"hooks": true})
 	taskPolicyUntouched(c, "C06.5")
+	// … nor an element of its command lists: a filter or a rendering "in place" on t.Commands rewrites the task's definition
+	taskStorageWrites(c, "C06.5")
 }
 
 // taskPolicyUntouched checks C06.5: outside the packages that define and build tasks (pkg/task,
@@ -529,6 +531,7 @@ func executeTable(c *an.Ctx, r *runnerRoles, rule string, exitCode bool) {
 		c.Check(good, rule, an.Short(f)+":final-return", ret.Pos(), "returns nil after the last job", "does not return nil after the last job succeeded or was allowed to fail: "+why)
 	}
 	executorErrorIdentity(c, rule)
+	exitStatusOrigin(c, rule)
 }
 
 // executorErrorIdentity checks that DefaultExecutor.Execute hands the
@@ -1053,4 +1056,33 @@ func tailPointerLinking(c *an.Ctx, ct *ssa.Function, site *ssa.Call, inner *an.L
 		}
 	}
 	return "every compiled job is stored once through a pointer to the tail link, which then moves to the job's Next; the head variable is returned", true
+}
+
+// exitStatusOrigin: an exit status is something a command reported. The module never makes one itself
+// (interp.NewExitStatus): an error manufactured to look like an exit status — for a command that was never
+// started, a timeout, a rendering failure — is tolerated by allow_failure, turns a condition into "skip", and
+// reports a status no command returned.
+func exitStatusOrigin(c *an.Ctx, rule string) {
+	p := c.P
+	bad := false
+	for _, fn := range p.Funcs {
+		if !an.InModule(fn) {
+			continue
+		}
+		an.EachInstr(fn, func(in ssa.Instruction) {
+			call, ok := in.(*ssa.Call)
+			if !ok {
+				return
+			}
+			callee := call.Call.StaticCallee()
+			if callee == nil || callee.Pkg == nil || callee.Pkg.Pkg.Path() != "mvdan.cc/sh/v3/interp" || callee.Name() != "NewExitStatus" {
+				return
+			}
+			bad = true
+			c.Bad(rule, an.Short(fn)+":NewExitStatus", call.Pos(), "%s manufactures an exit status (interp.NewExitStatus): the job walk and the condition check take every error that matches IsExitStatus for the status of a command that ran — allow_failure tolerates it, a condition turns it into \"skipped\" — so a failure that is not a command's own status is forgiven", an.Short(fn))
+		})
+	}
+	if !bad {
+		c.OK(rule, "module:exit-status-origin", token.NoPos, "no function of the module constructs an exit-status error: every one comes from the interpreter")
+	}
 }
